@@ -257,7 +257,9 @@ func Apply(ctx context.Context, rc *regclient.RegClient, rSrc ref.Ref, opts ...O
 					dl.mod = deleted
 					return dl, nil
 				}
-				if changed {
+				// the layer stream has been consumed by the tar reader: a layer that is pushed
+				// below (added, or replaced by an earlier step) is pushed from the repacked copy
+				if changed || dl.mod != unchanged {
 					// close to flush remaining content
 					err = tw.Close()
 					if err != nil {
